@@ -349,7 +349,7 @@ func buildPureEncodings(dir string) {
 // ---------- targets ----------
 
 func protoTarget(thorough bool, name string, mk func() proto.Message, conv func(proto.Message)) {
-	addTarget(thorough, name, 2, 3, func(_ *enc, in []byte) string {
+	addTarget(thorough, 4096, name, 2, 3, func(_ *enc, in []byte) string {
 		m := mk()
 		if err := proto.Unmarshal(in, m); err != nil {
 			return "err: unmarshal"
@@ -360,7 +360,7 @@ func protoTarget(thorough bool, name string, mk func() proto.Message, conv func(
 }
 
 func buildPureTargets(thorough bool) {
-	addTarget(thorough, "sql.DecodeValue", 3, 3, func(_ *enc, in []byte) string {
+	addTarget(thorough, 4096, "sql.DecodeValue", 3, 3, func(_ *enc, in []byte) string {
 		ok := 0
 		for _, t := range sqlTypes {
 			if _, _, err := sql.DecodeValue(in, t); err == nil {
@@ -373,7 +373,7 @@ func buildPureTargets(thorough bool) {
 		sql.DecodeValueLength(in)
 		return fmt.Sprintf("ok for %d of 16 (type, nullable) pairs", ok)
 	})
-	addTarget(thorough, "sql.DecodeValueFromKey", 3, 3, func(_ *enc, in []byte) string {
+	addTarget(thorough, 4096, "sql.DecodeValueFromKey", 3, 3, func(_ *enc, in []byte) string {
 		ok := 0
 		for _, kt := range sqlKeyTypes {
 			if _, _, err := sql.DecodeValueFromKey(in, kt.t, kt.maxLen); err == nil {
@@ -386,7 +386,7 @@ func buildPureTargets(thorough bool) {
 	if thorough {
 		tokLen, sqlRaw = 5, 3
 	}
-	ts := addTarget(thorough, "sql.ParseSQLString", sqlRaw, sqlRaw, func(_ *enc, in []byte) string {
+	ts := addTarget(thorough, 4096, "sql.ParseSQLString", sqlRaw, sqlRaw, func(_ *enc, in []byte) string {
 		_, err := sql.ParseSQLString(string(in))
 		if err == nil {
 			return "ok"
@@ -397,10 +397,10 @@ func buildPureTargets(thorough bool) {
 
 	for _, ty := range pgOrder {
 		p := pgParsers[ty]
-		addTarget(thorough, "pgsql.fmessages."+p.name, 3, 3, func(_ *enc, in []byte) string { return outErr(p.f(in)) })
+		addTarget(thorough, 4096, "pgsql.fmessages."+p.name, 3, 3, func(_ *enc, in []byte) string { return outErr(p.f(in)) })
 	}
 	// message framing + the dispatch of session.parseRawMessage (unexported; replicated here on the type byte)
-	addTarget(thorough, "pgsql.ReadRawMessage+parse", 3, 3, func(_ *enc, in []byte) string {
+	addTarget(thorough, 4096, "pgsql.ReadRawMessage+parse", 3, 3, func(_ *enc, in []byte) string {
 		mr := pgserver.NewMessageReader(&fakeConn{r: bytes.NewReader(in)})
 		n := 0
 		for ; n <= len(in); n++ {
@@ -430,7 +430,7 @@ func buildPureTargets(thorough bool) {
 	})
 	protoTarget(thorough, "schema.KVMetadataFromProto", func() proto.Message { return &schema.KVMetadata{} }, func(m proto.Message) { schema.KVMetadataFromProto(m.(*schema.KVMetadata)) })
 
-	addTarget(thorough, "stream.MsgReceiver.ReadFully", 2, 3, func(_ *enc, in []byte) string {
+	addTarget(thorough, 4096, "stream.MsgReceiver.ReadFully", 2, 3, func(_ *enc, in []byte) string {
 		return streamRun(in, func(mr stream.MsgReceiver, bound int) string {
 			for n := 0; n <= bound; n++ {
 				if _, _, err := mr.ReadFully(); err != nil {
@@ -440,7 +440,7 @@ func buildPureTargets(thorough bool) {
 			return "VIOL steps: ReadFully keeps returning messages beyond the input size"
 		})
 	})
-	addTarget(thorough, "stream.MsgReceiver.Read", 2, 3, func(_ *enc, in []byte) string {
+	addTarget(thorough, 4096, "stream.MsgReceiver.Read", 2, 3, func(_ *enc, in []byte) string {
 		return streamRun(in, func(mr stream.MsgReceiver, bound int) string {
 			buf := make([]byte, streamBuf)
 			for n := 0; n <= 4*bound; n++ {
@@ -451,7 +451,7 @@ func buildPureTargets(thorough bool) {
 			return "VIOL steps: Read never reports the end of a finite stream"
 		})
 	})
-	addTarget(thorough, "stream.KvStreamReceiver", 2, 3, func(_ *enc, in []byte) string {
+	addTarget(thorough, 4096, "stream.KvStreamReceiver", 2, 3, func(_ *enc, in []byte) string {
 		return streamRun(in, func(mr stream.MsgReceiver, bound int) string {
 			r := stream.NewKvStreamReceiver(mr, streamBuf)
 			for n := 0; n <= bound; n++ {
@@ -466,7 +466,7 @@ func buildPureTargets(thorough bool) {
 			return "VIOL steps: Next keeps returning entries beyond the input size"
 		})
 	})
-	addTarget(thorough, "stream.ZStreamReceiver", 2, 3, func(_ *enc, in []byte) string {
+	addTarget(thorough, 4096, "stream.ZStreamReceiver", 2, 3, func(_ *enc, in []byte) string {
 		return streamRun(in, func(mr stream.MsgReceiver, bound int) string {
 			r := stream.NewZStreamReceiver(mr, streamBuf)
 			for n := 0; n <= bound; n++ {
@@ -481,7 +481,7 @@ func buildPureTargets(thorough bool) {
 			return "VIOL steps: Next keeps returning entries beyond the input size"
 		})
 	})
-	addTarget(thorough, "stream.VEntryStreamReceiver", 2, 3, func(_ *enc, in []byte) string {
+	addTarget(thorough, 4096, "stream.VEntryStreamReceiver", 2, 3, func(_ *enc, in []byte) string {
 		return streamRun(in, func(mr stream.MsgReceiver, bound int) string {
 			r := stream.NewVEntryStreamReceiver(mr, streamBuf)
 			for n := 0; n <= bound; n++ {
@@ -496,7 +496,7 @@ func buildPureTargets(thorough bool) {
 			return "VIOL steps: Next keeps returning entries beyond the input size"
 		})
 	})
-	addTarget(thorough, "stream.ExecAllStreamReceiver", 2, 3, func(_ *enc, in []byte) string {
+	addTarget(thorough, 4096, "stream.ExecAllStreamReceiver", 2, 3, func(_ *enc, in []byte) string {
 		return streamRun(in, func(mr stream.MsgReceiver, bound int) string {
 			r := stream.NewExecAllStreamReceiver(mr, streamBuf)
 			for n := 0; n <= bound; n++ {
